@@ -113,6 +113,8 @@ def execute(sc):
                     await asyncio.sleep(it['delay'])
                 if it.get('fail'):
                     ctl.log('ProducerFailed', id=sid)
+                    if it.get('fail') == 'cancel':      # e.g. awaiting a task that was cancelled
+                        raise asyncio.CancelledError()
                     raise ProducerError(sid)
                 ctl.log('Produced', id=sid, x=it['x'])
                 ctl.log('ProducerDone', id=sid)
@@ -151,6 +153,8 @@ def execute(sc):
                 for i, x in enumerate(xs):
                     if it.get('fail_at') == i:
                         ctl.log('ProducerFailed', id=sid)
+                        if it.get('fail_kind') == 'cancel':
+                            raise asyncio.CancelledError()
                         raise ProducerError(sid)
                     if it.get('step', 0) > 0:
                         await asyncio.sleep(it['step'])
@@ -172,6 +176,9 @@ def execute(sc):
         shutdown_at = [None]
 
         async def do_wait(buf, it):
+            if it.get('submit_first'):
+                # submit and wait in the same step of one coroutine (no yield in between)
+                submit(buf, it['submit_first'], 'L1')
             ctl.log('WaitCall', w=it['w'], cancel=bool(it.get('cancel', True)), thr='L1')
             await buf.wait(cancel=bool(it.get('cancel', True)))
             ctl.log('WaitRet', w=it['w'])
